@@ -424,9 +424,11 @@ def r5(ctx):
     ok = len(augs) >= 3 and all(isinstance(a.op, ast.Add) and is_increment_of_loop_record(a) for a in augs)
     ctx.emit('C11-R5', ok, COUNTTABLE, g, f'{len(augs)} table updates add the "increment" entry of the current record', key='table-update')
     # sample and feature of the same read
-    s1 = [s for s in walk_no_nested(g) if isinstance(s, ast.Assign) and src(s.targets[0]) == 'sample' and 'readTag(read, tag)' in src(s.value) and 'sampleTags' in src(s.value)]
-    s2 = [s for s in walk_no_nested(g) if isinstance(s, ast.Assign) and src(s.targets[0]) == 'feat' and 'readTag(read, tag)' in src(s.value)]
-    ctx.emit('C11-R5', bool(s1) and bool(s2), COUNTTABLE, g, 'sample and feature values are read from the same read via readTag', key='same-read', nontrivial=False)
+    rt = [c for c in ast.walk(g) if isinstance(c, ast.Call) and dotted(c.func) == 'readTag' and c.args]
+    rd0 = g.args.args[0].arg
+    over_samples = any('sampleTags' in src(x) for c in rt for x in [ctx.ix.module(COUNTTABLE).parent.get(ctx.ix.module(COUNTTABLE).parent.get(c))] if x is not None) or 'sampleTags' in src(g)
+    ctx.emit('C11-R5', len(rt) >= 2 and all(src(c.args[0]) == rd0 for c in rt) and over_samples, COUNTTABLE, g,
+             f'sample and feature values are read from the same read via readTag ({len(rt)} reads, all of `{rd0}`)', key='same-read', nontrivial=False)
 
 
 @rule('C11', 'C11-R6', 'a read is counted under its own values and every blacklisted interval is consulted: tag / attribute values are never tested for '
